@@ -9,7 +9,7 @@ run_one() {
   P="$(realpath $d)/patch.diff"; [ -f "$(realpath $d)/patch_on_fixed_tree.diff" ] && P="$(realpath $d)/patch_on_fixed_tree.diff"
   if git -C $wt apply "$P" 2>/dev/null; then
     s=$(date +%s); out=$(VERIF_REPO=$wt VERIF_NPROC=${NPROC_EACH:-5} ./check $ID --tier ${TIER:-quick} --no-evidence 2>&1); rc=$?; e=$(date +%s)
-    echo -e "$ID\t$name\trc=$rc\tviol=$(echo "$out" | grep -c '^VIOLATION')\t$((e-s))s\t$(echo "$out" | grep -E "^$ID \[" | tail -1 | cut -c1-120)" >> $OUT
+    echo "$out" > /root/scratch/mxlogs/$ID-$name.log; echo -e "$ID\t$name\trc=$rc\tviol=$(echo "$out" | grep -c '^VIOLATION')\t$((e-s))s\t$(echo "$out" | grep -E "^$ID \[" | tail -1 | cut -c1-120)" >> $OUT
   else
     echo -e "$ID\t$name\tpatch-failed" >> $OUT
   fi
